@@ -95,6 +95,13 @@ LenientClock(t) ==
           /\ \A q \in 1..Len(body) : q # p => IsDigit(body[q])
 
 ---------------------------------------------------------------------------
+(* instants after 2038-01-19 do not fit TLC's 32-bit integers: an instant given as four little-endian bytes is read RELATIVE  *)
+(* to a base instant <<high, low>> (two 16-bit limbs) that is a whole number of weeks after the epoch, so that weekdays, day  *)
+(* boundaries and zone offsets are unaffected; base <<0, 0>> is the epoch itself                                               *)
+RelFits(b4, base) == LET d == (b4[4] * 256 + b4[3]) - base[1] IN d >= -32767 /\ d <= 32766
+Rel(b4, base) == ((b4[4] * 256 + b4[3]) - base[1]) * 65536 + ((b4[2] * 256 + b4[1]) - base[2])
+
+---------------------------------------------------------------------------
 (* the 16-byte schedule record a device lists:                              *)
 (*   id, enabled, day mask, state, start LE32, end LE32, 4 trailing bytes    *)
 (* and the 11 bytes create_schedule sends after the slot placeholder ff:     *)
